@@ -205,6 +205,38 @@ def bounded_graphs(tier, seed):
         distinct.add(label)
         if err:
             failures.append({"id": "bounded:build_schemas:deep", "detail": f"{label}: {err}", "input": {"document": label}})
+    # the same deep documents through the PUBLIC entry point (SpecLoader / load_ir_from_spec): whatever the loader does with the raw document before the
+    # tracked parser sees it must not recurse without bound either, and the result must name every declared schema
+    import sys as _sys0
+    for label, raw, md in deep_docs():
+        n += 1
+        distinct.add("load:" + label)
+        old_env = os.environ.get("PYOPENAPI_MAX_DEPTH")
+        if md is not None:
+            os.environ["PYOPENAPI_MAX_DEPTH"] = str(md)
+        lim0 = _sys0.getrecursionlimit()
+        try:
+            from pyopenapi_gen.core.loader.loader import load_ir_from_spec
+            import warnings as _w
+            with _w.catch_warnings():
+                _w.simplefilter("ignore")
+                ir = load_ir_from_spec({"openapi": "3.0.3", "info": {"title": "deep", "version": "1"}, "paths": {}, "components": {"schemas": raw}})
+            from pyopenapi_gen.core.utils import NameSanitizer as _NS
+            # (a schema counts as present under its declared name or under the class name derived from it — the loader's own postcondition)
+            missing = [k for k in raw if k not in ir.schemas and _NS.sanitize_class_name(k) not in ir.schemas]
+            if missing:
+                failures.append({"id": "bounded:load_ir_from_spec:deep", "detail": f"{label}: declared names missing from the result: {missing[:3]}", "input": {"document": label}})
+        except RecursionError:
+            failures.append({"id": "bounded:load_ir_from_spec:deep", "detail": f"{label}: RecursionError (interpreter stack exhausted) in the public loader", "input": {"document": label}})
+        except Exception as ex:  # noqa
+            failures.append({"id": "bounded:load_ir_from_spec:deep", "detail": f"{label}: {type(ex).__name__}: {str(ex)[:160]}", "input": {"document": label}})
+        finally:
+            _sys0.setrecursionlimit(lim0)
+            if md is not None:
+                if old_env is None:
+                    os.environ.pop("PYOPENAPI_MAX_DEPTH", None)
+                else:
+                    os.environ["PYOPENAPI_MAX_DEPTH"] = old_env
     # degenerate reference structures: they may be rejected, but loading must END (an ordinary error or a result), never exhaust the interpreter stack
     R_ = "#/components/schemas/"
     rings = {
